@@ -57,6 +57,16 @@ Qed.
 Lemma go_quorum_pos n : 0 <= n -> 1 <= go_quorum n.
 Proof. intros H. rewrite go_quorum_spec by assumption. apply quorum_pos. assumption. Qed.
 
+(* the two quorum comparisons as read from observation.go (Extracted.v): these lemmas fail if the source compares differently *)
+Lemma local_quorum_reached_iff q n : proc_local_quorum_reached q n = true <-> q <= n.
+Proof. unfold proc_local_quorum_reached. apply Z.leb_le. Qed.
+Lemma inbound_below_quorum_iff n q : proc_inbound_below_quorum n q = true <-> n < q.
+Proof. unfold proc_inbound_below_quorum. apply Z.ltb_lt. Qed.
+Lemma local_quorum_reached_spec q n : Bool.reflect (q <= n) (proc_local_quorum_reached q n).
+Proof. apply Bool.iff_reflect. symmetry. apply local_quorum_reached_iff. Qed.
+Lemma inbound_below_quorum_spec n q : Bool.reflect (n < q) (proc_inbound_below_quorum n q).
+Proof. apply Bool.iff_reflect. symmetry. apply inbound_below_quorum_iff. Qed.
+
 Section P.
 Variable recover : bytes -> bytes -> option bytes.
 Variable keccak : bytes -> bytes.
@@ -208,9 +218,9 @@ Proof.
     as (sg & Ha & Hinc & Hso & _ & Hle & _).
   cbn [length] in Ha, Hinc. change (Z.of_nat 0) with 0 in Ha, Hinc. rewrite Ha.
   destruct (our_vaa e1) as [v|] eqn:Ev; [|split; [apply Hkeep; exact He1|constructor]].
-  destruct ((go_quorum (Z.of_nat (length (keys g))) <=? Z.of_nat (length sg)) && negb (submitted e1)) eqn:Eq;
+  destruct (proc_local_quorum_reached (go_quorum (Z.of_nat (length (keys g)))) (Z.of_nat (length sg)) && negb (submitted e1)) eqn:Eq;
     [|split; [apply Hkeep; exact He1|constructor]].
-  apply andb_prop in Eq as [Eq _]. apply Z.leb_le in Eq.
+  apply andb_prop in Eq as [Eq _]. apply local_quorum_reached_iff in Eq.
   destruct sg as [|s0 sg'] eqn:Esg.
   { exfalso. pose proof (go_quorum_pos (Z.of_nat (length (keys g))) ltac:(lia)). cbn [length] in Eq. lia. }
   rewrite <- Esg in *. clear Esg.
@@ -261,7 +271,7 @@ Proof.
   destruct (cur st) as [g|] eqn:Ec; [|split; [exact HI|constructor]].
   destruct (length (keys g) =? 0)%nat; [split; [exact HI|constructor]|].
   destruct (length (sigs v) =? 0)%nat; [split; [exact HI|constructor]|].
-  destruct (Z.ltb_spec (Z.of_nat (length (sigs v))) (go_quorum (Z.of_nat (length (keys g))))) as [|Hq]; [split; [exact HI|constructor]|].
+  destruct (inbound_below_quorum_spec (Z.of_nat (length (sigs v))) (go_quorum (Z.of_nat (length (keys g))))) as [|Hq]; [split; [exact HI|constructor]|].
   destruct (verify_sigs rec keccak v (keys g)) eqn:Ev; cbn [negb]; [|split; [exact HI|constructor]].
   destruct (dlookup (id_of v) (db st)) as [x|] eqn:El; [split; [exact HI|constructor]|].
   assert (Hqv : quorum_valid v (keys g)).
